@@ -374,9 +374,9 @@ func vfH_C15_stalled_peer() {
 	}
 }
 
-//vf:assume C15-mitm-handshake: a CONNECT that is MITM'd, with crypto/tls modelled as a transparent layer (8.10, so model-only): the 200 reply is written, the client's hello (one TLS record) arrives in a later segment, then one inner request; the MITM handshake timeout and the idle timeout are symbolic durations in [0, 2^40) ns; while the proxy waits for the first byte after its 200 reply a read deadline of the idle limit is armed (none when the idle limit is 0); the deadline that bounds the handshake (of the context given to it, or armed on the connection while it runs) is compared with the clock readings the connection took: it is never earlier than the limit counted from the moment the 200 reply was written (the earliest moment the handshake phase can be said to begin) and never later than the limit counted from the last reading the connection took (which is after the handshake); limit 0 means no deadline; after the handshake no deadline for writes is left armed (write-timeout unset)
+//vf:assume C15-mitm-handshake: a CONNECT that is MITM'd, with crypto/tls modelled as a transparent layer (8.10, so model-only): the 200 reply is written, the client's hello (one TLS record) arrives in a later segment (at once, or byte by byte so that the handshake itself reads from the socket), then one inner request; the MITM handshake timeout and the idle timeout are symbolic durations in [0, 2^40) ns; while the proxy waits for the first byte after its 200 reply a read deadline of the idle limit is armed (none when the idle limit is 0); the deadline that bounds the handshake (of the context given to it, or armed on the connection while it runs) is compared with the clock readings the connection took: it is never earlier than the limit counted from the moment the 200 reply was written (the earliest moment the handshake phase can be said to begin) and never later than the limit counted from the last reading the connection took (which is after the handshake); limit 0 means no deadline; after the handshake no deadline for writes is left armed (write-timeout unset)
 
-//vf:harness property=C15 nopanic modelonly reach=mitm-handshake-timed,mitm-handshake-unlimited,mitm-wait-for-hello-bounded steps=8000000
+//vf:harness property=C15 nopanic modelonly reach=mitm-handshake-timed,mitm-handshake-unlimited,mitm-wait-for-hello-bounded,mitm-handshake-reads-from-the-socket steps=8000000
 func vfH_C15_mitm_handshake() {
 	p := &Proxy{}
 	p.TestingSkipRoundTrip = true
@@ -387,6 +387,10 @@ func vfH_C15_mitm_handshake() {
 	head := "CONNECT example.com:443 HTTP/1.1\r\nHost: example.com:443\r\n\r\n"
 	conn := &vfTimedConn{VfConn: NewVfConn([]byte(head + "\x16\x03\x01\x00\x03abc" + "GET / HTTP/1.1\r\nHost: example.com\r\n\r\n"))}
 	conn.Chunk = len(head) // the hello arrives in a later segment than the CONNECT
+	helloSplit := vfrt.Choice("hello-arrives-byte-by-byte", 2) == 1
+	if helloSplit {
+		conn.Chunk = 1 // ... and in pieces: the handshake itself has to read from the socket
+	}
 	p.handleLoop(conn)
 	deadline, has := vfrt.TLSHandshakeDeadline()
 	limit := p.MITMTLSHandshakeTimeout
@@ -422,6 +426,25 @@ func vfH_C15_mitm_handshake() {
 		}
 	} else {
 		vfrt.Assert(waitDeadline.IsZero(), "mitm-handshake/no-idle-limit-means-no-deadline-for-the-wait")
+	}
+	// while the handshake reads the rest of the hello from the socket, the read deadline in force is not the idle
+	// one any more: it is none, or one that leaves the handshake its limit counted from the hello's first byte
+	if helloSplit {
+		vfrt.Reach("mitm-handshake-reads-from-the-socket")
+		var inForce time.Time
+		for i, e := range conn.events {
+			if i > hello && e.kind == 'r' {
+				break
+			}
+			if e.kind == 'd' || e.kind == 'D' {
+				inForce = e.deadline
+			}
+		}
+		if !inForce.IsZero() {
+			hl := p.MITMTLSHandshakeTimeout
+			vfrt.Assert(hl > 0 && !inForce.Before(conn.events[hello].at.Add(hl)), "mitm-handshake/read-deadline-in-force-during-the-handshake-leaves-it-its-limit")
+		}
+		return // the bounds on the handshake's own deadline are decided in the other variant (this log is ~150 readings long)
 	}
 	// the handshake may be bounded by its context or by a deadline armed on the connection while it runs
 	var connDeadline time.Time
